@@ -722,6 +722,87 @@ func runVacuum(c *Case, id string) {
 			fail("second-vacuum-changes-bucket", "repeating the same vacuum changed the bucket listing: "+d)
 			return
 		}
+		// a vacuum that failed at one request and is then repeated undisturbed: the repetition succeeds and
+		// finishes the job - of the node objects the pre-vacuum versions used, none is left that no listed
+		// version reaches any more (such an object can never be reclaimed)
+		if c.Index%3 == 0 && muts > 0 && muts <= 40 && c.Res.Status != "violated" {
+			preReach := map[string][]string{} // node -> pre-vacuum versions that use it
+			for _, wh := range []string{"current", "merged"} {
+				for _, n := range walk.VersionNames(pre, base, wh) {
+					for nd := range walk.Reach(pre, base, n) {
+						preReach[nd] = append(preReach[nd], n)
+					}
+				}
+			}
+			for k := 0; k <= muts && c.Res.Status != "violated"; k++ {
+				st2 := newStore()
+				st2.Restore(pre)
+				vclockSet(st2.Name, vclock)
+				conn := OpenConn("rep")
+				t := tname(c, "rep")
+				spec := TableSpec{Name: t, Cols: "k PRIMARY KEY, a, b, c", Store: st2.Name, Client: "rep", Prefix: w.prefix, EPN: epn}
+				if err := conn.Create(spec); err == nil {
+					cl := st2.Client("rep")
+					cl.ResetCounters()
+					if k > 0 {
+						cl.AddFault(fs3.Fault{AtMut: k, Action: "error"})
+						conn.Rows("select vacuum_error from s3db_vacuum('"+t+"', ?)", tstr(cutoff))
+						cl.ClearFaults()
+					}
+					res, err := conn.Rows("select vacuum_error from s3db_vacuum('"+t+"', ?)", tstr(cutoff))
+					c.Count("vacuums_repeated_after_a_failure", 1)
+					where := fmt.Sprintf("vacuum (cutoff %s) whose mutating request %d of %d failed, then the same vacuum again", tstr(cutoff), k, muts)
+					if err != nil || len(res) != 1 || res[0] != "NULL" {
+						fail("repeat-after-failure-fails", fmt.Sprintf("%s: the repetition reports %v %v", where, res, err))
+					} else {
+						after := st2.Snapshot()
+						reach := map[string]bool{}
+						listed := map[string]bool{}
+						for _, wh := range []string{"current", "merged"} {
+							for _, n := range walk.VersionNames(after, base, wh) {
+								listed[n] = true
+								for nd := range walk.Reach(after, base, n) {
+									reach[nd] = true
+								}
+							}
+						}
+						for nd, users := range preReach {
+							if _, still := after[base+"node/"+nd]; !still || reach[nd] {
+								continue
+							}
+							// which of the versions that used it are still listed (though no longer walkable)?
+							kind := "its-versions-are-gone"
+							for _, u := range users {
+								if listed[u] {
+									kind = "its-version-is-listed-but-unwalkable"
+								}
+							}
+							// had the failed vacuum deleted node objects before it failed? (then trees of versions it
+							// was reclaiming are no longer walkable: known finding D35)
+							nodesDeleted := 0
+							for _, ev := range st2.Log() {
+								if ev.Client == "rep" && ev.Res == "fault" {
+									break
+								}
+								if ev.Client == "rep" && ev.Op == fs3.OpDel && strings.Contains(ev.Key, "/node/") {
+									nodesDeleted++
+								}
+							}
+							if nodesDeleted > 0 {
+								kind = "after-some-nodes-were-deleted:" + kind
+							} else {
+								kind = "no-node-had-been-deleted:" + kind
+							}
+							fail("orphan-node-after-repeated-vacuum:"+kind, fmt.Sprintf("%s (which succeeded): node %s is still stored, but no listed version reaches it any more", where, nd))
+							break
+						}
+					}
+				}
+				conn.Close()
+				dropStore(st2)
+				vclockDrop(st2.Name)
+			}
+		}
 		// late merge: a writer that still holds a live copy writes with an older stamp
 		if nw >= 2 && cutoff < syncStamp-1 && len(lateDeleted) > 0 {
 			B := w.ws[1]
@@ -760,6 +841,41 @@ func runVacuum(c *Case, id string) {
 			}
 			if n > 0 {
 				c.Count("late_merges_checked", 1)
+			}
+		}
+		// at the very end: everybody synchronises, then a vacuum with a cutoff after everything - every
+		// superseded version was superseded before that cutoff, so no version object may be left under
+		// root/merged, and every stored node is one the current version uses
+		if c.Res.Status != "violated" {
+			for round := 0; round < 2; round++ {
+				for j := 0; j < nw; j++ {
+					tick()
+					refresh(j)
+				}
+			}
+			tick()
+			refresh(0)
+			tick()
+			res, err := A.conn.Rows("select vacuum_error from s3db_vacuum('"+A.table+"', ?)", tstr(vclock+1000))
+			w.logf("w0 LAST VACUUM cutoff after everything -> %v %v", res, err)
+			c.Count("last_vacuums", 1)
+			if err != nil || len(res) != 1 || res[0] != "NULL" {
+				fail("vacuum-error", fmt.Sprintf("the last s3db_vacuum reported %v %v", res, err))
+			} else {
+				last := w.st.Snapshot()
+				if left := walk.VersionNames(last, base, "merged"); len(left) > 0 {
+					fail("version-never-reclaimed", fmt.Sprintf("after every writer synchronised and a vacuum with a cutoff after everything, %d superseded versions are still stored under root/merged (first: %s)", len(left), left[0]))
+				} else if cur := walk.VersionNames(last, base, "current"); len(cur) == 1 {
+					reach := walk.Reach(last, base, cur[0])
+					for _, nd := range walk.NodeNames(last, base) {
+						if !reach[nd] {
+							if _, was := pre[base+"node/"+nd]; was {
+								fail("node-never-reclaimed", fmt.Sprintf("after every writer synchronised and a vacuum with a cutoff after everything, node %s (in the bucket since before the first vacuum) is still stored although the current version does not use it", nd))
+								break
+							}
+						}
+					}
+				}
 			}
 		}
 	}
